@@ -109,12 +109,31 @@ def r2_only_in_tie(ctx):
         lits = _true_literals(g)
         if tie_atom in lits:
             ctx.ok(f, c, f"tiebreak_set({sk}) dominated by len > 1", bool_key(g))
+        elif f.short == "elect_cands_from_set_ranking" and _selector_tie_only_on_overshoot(prog):
+            ctx.ok(f, c, "tiebreak_set at the seat boundary dominated by the overshoot test", "every path of the election loop that resolves a tie has count + len(group) > m")
         elif f.short == "elect_cands_from_set_ranking" and any(re.fullmatch(r"not ge\(m - \w+, 0\)|ge\(\w+ - m, 1\)|not ge\(-\w+ \+ m, 0\)", a) for a in _all_literals(g)):
             ctx.ok(f, c, "tiebreak_set at the seat boundary dominated by the overshoot test", bool_key(g))
         else:
             ctx.violated(f, c, f"tiebreak_set({sk}) not dominated by a tie test",
                          f"path condition `{bool_key(g)}` does not establish len({sk}) > 1; a random order could be imposed on untied candidates")
     # tiebroken_ranking only descends into sets with more than one member (checked above via its call)
+
+
+def _selector_tie_only_on_overshoot(prog) -> bool:
+    """On the iteration table of the selector (rules/selmodel.py): every path that evaluates tiebreak_set has
+    count + len(group) > m in entry values."""
+    from rules import selmodel
+    from vk.algebra import implies, spec_guard
+    m = selmodel.model(prog)
+    if m.loop is None or m.problem or m.CNT is None:
+        return False
+    over = spec_guard(m.overshoot(), int_atoms=lambda a: True)
+
+    def has_tie(e):
+        return e is not None and any(isinstance(n, ast.Call) and astx.call_name(n) == "tiebreak_set" for n in ast.walk(e))
+    outs = [o for o in m.outcomes if has_tie(o.value) or any(isinstance(v, ast.AST) and has_tie(v) for v in o.state.values())
+            or any(has_tie(seg[1]) for v in o.state.values() if not isinstance(v, ast.AST) for seg in v.segs if seg[0] != "base")]
+    return bool(outs) and all(implies(m.cond(o), over) for o in outs)
 
 
 def _true_literals(g):
@@ -215,6 +234,13 @@ def r3_recorded(ctx):
                         for i, el in enumerate(r.value.elts):
                             if astx.is_name(el, v):
                                 ok_flow = _caller_records(prog, f, i)
+            if not ok_flow:
+                # the raw (tied set, resolution) pair handed to the caller, which wraps and records it
+                for r in (n for n in astx.walk_own(f.node) if isinstance(n, ast.Return)):
+                    if isinstance(r.value, ast.Tuple):
+                        for i, el in enumerate(r.value.elts):
+                            if astx.is_name(el, t) and _caller_wraps_and_records(prog, f, i):
+                                ok_flow = True
             ctx.check(ok_flow, f, c, "selector tie resolution recorded under the tied set",
                       f"{{{t}[0]: {t}[1]}} flows into tiebreaks=", f"component 2 (`{t}`) of the selector result never reaches ElectionState(tiebreaks=...)")
     # (c') later stages hand over the sub-election's own states (their tiebreaks travel with them)
@@ -233,6 +259,29 @@ def r3_recorded(ctx):
                 good = True
         ctx.check(good, f, f.node, f"{name}: stage-0 state forwards the Plurality sub-election's tiebreaks",
                   "tiebreaks = plurality.election_states[-1].tiebreaks", "the sub-election's tiebreak record is dropped")
+
+
+def _caller_wraps_and_records(prog, helper, idx) -> bool:
+    """Component idx of helper's returned tuple (the raw pair) is bound to u in a caller, which records {u[0]: u[1]}
+    (built only when u is there) as tiebreaks=."""
+    for f in elect.step_functions(prog):
+        if f.cls is None or helper.cls is None or helper.cls not in f.cls.mro():
+            continue
+        pm = astx.parents(f.node)
+        for c in astx.calls_in(f.node, helper.name):
+            st = astx.stmt_of(c, pm)
+            if not (isinstance(st, ast.Assign) and isinstance(st.targets[0], ast.Tuple) and idx < len(st.targets[0].elts) and isinstance(st.targets[0].elts[idx], ast.Name)):
+                continue
+            u_ = st.targets[0].elts[idx].id
+            for n in astx.walk_own(f.node):
+                if isinstance(n, ast.Assign) and isinstance(n.targets[0], ast.Name) and isinstance(n.value, ast.Dict) and len(n.value.keys) == 1 \
+                        and astx.u(n.value.keys[0]) == f"{u_}[0]" and astx.u(n.value.values[0]) == f"{u_}[1]" and n.lineno > st.lineno:
+                    pc = Normalizer(f.node, inline=False).conj(astx.path_condition(f.node, n, pm))
+                    if f"truthy({u_})" in _true_literals(pc) or f"not isnone({u_})" in _all_literals(pc):
+                        for sc, tv in _tiebreaks_kw_values(prog, f):
+                            if astx.is_name(tv, n.targets[0].id):
+                                return True
+    return False
 
 
 def _caller_records(prog, helper, idx) -> bool:
